@@ -21,7 +21,7 @@ KNOWN_ACTION_SPAN = "action span is computed from the trimmed action text and do
 
 # After the proposed repairs are applied to /repo set these to True: the mirror is then run in its
 # repaired variant and the corresponding known-defect classification is switched off.
-COMMENT_FIXED = False
+COMMENT_FIXED = True
 ACTION_SPAN_FIXED = False
 MODEL_FLAGS = (" fc" if COMMENT_FIXED else "") + (" fa" if ACTION_SPAN_FIXED else "")
 
